@@ -1,6 +1,7 @@
 package main
 
 import (
+	"regexp"
 	"encoding/json"
 	"fmt"
 	"hash/fnv"
@@ -524,3 +525,13 @@ func sigMatch(pattern, sig string) bool {
 	}
 	return pattern == sig
 }
+
+// noAnsiConst breaks every `{NAME}` that murex's out / err / tout / ( ) builtins would
+// expand into an ANSI sequence ({RED}, {F5}, {^^} ...): a documented feature of those
+// builtins, not part of any property here, so generated text must not contain one
+var ansiConstRx = regexp.MustCompile(`\{([-\^A-Z0-9]+)\}`)
+
+func noAnsiConst(s string) string {
+	return ansiConstRx.ReplaceAllString(s, "{$1)")
+}
+
